@@ -51,6 +51,20 @@ def tag_tables(ctx) -> None:
             sections.append(k.value)
             for kk, vv in zip(v.keys, v.values):
                 written[(k.value, kk.value)] = vv
+        elif isinstance(v, ast.Call) and isinstance(v.func, ast.Name) and v.keywords and not v.args:
+            # section built by a local helper: section(timestamp=..., ordinal=...)
+            helper = next((n for n in ast.walk(dumps.node) if isinstance(n, core.FUNC) and n.name == v.func.id), None)
+            if helper is None:
+                continue
+            sections.append(k.value)
+            for kw in v.keywords:
+                written[(k.value, kw.arg)] = kw.value
+            for comp in [n for n in ast.walk(helper) if isinstance(n, ast.DictComp)]:
+                for g in comp.generators:
+                    for cond in g.ifs:
+                        txt = core.src(cond)
+                        okc = bool(re.fullmatch(r'\w+ is not None', txt))
+                        ctx.check(okc, 'C18.tag-table', dumps, f'a section helper may omit only absent (None) values; the filter `if {txt}` also drops present falsy values (ordinal 0, score 0.0, empty string) which then read back as None', cond, key=f'filter:{k.value}')
     ctx.floor('C18.tag-keys', len(written), 4)
     # reads in loads: meta[section][key] or meta[section].get(key), bound to keyword of a call cls.<Mode>(...)
     reads: dict[tuple[str, str], tuple[str, str, str, ast.AST]] = {}
@@ -170,6 +184,48 @@ def key_types(ctx) -> None:
     ctx.check('self + 1' in core.src(nxt.node), 'C18.keys', nxt, 'next generation key = self + 1', nxt.node, key='next')
 
 
+def listing_keys(ctx) -> None:
+    """Every Level.list converts each registry item with the key type of the listed level before sorting (raw registry
+    items - e.g. strings - would sort lexicographically, keep duplicates and skip key validation)."""
+    prog = ctx.prog
+    want = {
+        f'{C05.CASE}:Project.list': ('releases', 'Release.Key'),
+        f'{MAJOR}:Release.list': ('generations', 'Generation.Key'),
+    }
+    root = 'forml.io.asset._directory.root:Directory.list'
+    if prog.has_func(root):
+        want[root] = ('projects', 'Project.Key')
+    for ref, (listing, key) in want.items():
+        fn = prog.func(ref)
+        ret = next((r for r in core.walk_local(fn.node) if isinstance(r, ast.Return)), None)
+        ok = False
+        if ret is not None and isinstance(ret.value, ast.Call) and core.src(ret.value.func) == 'self.Listing' and ret.value.args:
+            arg = ret.value.args[0]
+            if isinstance(arg, (ast.GeneratorExp, ast.ListComp)) and len(arg.generators) == 1:
+                g = arg.generators[0]
+                conv = arg.elt
+                ok = isinstance(conv, ast.Call) and (core.dotted(conv.func) or '').endswith(key) and [core.src(a) for a in conv.args] == [core.src(g.target)] and f'self.registry.{listing}(' in core.src(g.iter)
+        ctx.check(ok, 'C18.keys', fn, f'{ref.split(":")[1]} converts every registry item with {key} before building the sorted, duplicate-free listing', ret or fn.node, key='list:key-conversion')
+
+
+IO_CALLS = {'open', 'read_bytes', 'read_text', 'isolated', 'load', 'loads', 'iterdir', 'exists', 'listdir', 'glob', 'stat', 'is_file', 'is_dir', 'import_module'}
+
+
+def io_caches(ctx) -> None:
+    """A memoised function must not read mutable storage: the second read after a write would return the first content."""
+    prog = ctx.prog
+    n = 0
+    for fn in prog.functions([m for m in prog.modules if m.startswith(('forml.project', 'forml.io.asset', 'forml.provider.registry', 'forml.setup'))]):
+        decos = core.decorator_names(fn.node)
+        if not any(d.split('.')[-1] in ('lru_cache', 'cache') for d in decos):
+            continue  # cached_property is a per-instance cache bound to the lifetime of one reader object
+        n += 1
+        io = sorted({core.call_tail(c) for c in core.calls_in(fn.node, deep=True) if core.call_tail(c) in IO_CALLS})
+        allowed = fn.ref.endswith('_directory:Cache.__call__')  # wraps only immutable committed content (C05 R-CACHE)
+        ctx.check(not io or allowed, 'R-CACHE', fn, f'memoised `{fn.qual}` reads storage ({io}): what is read back after a later write would be the cached earlier content', fn.node, key=f'io-cache:{fn.qual}')
+    ctx.floor('R-CACHE.io', n, 5)
+
+
 def pickling(ctx) -> None:
     prog = ctx.prog
     n = 0
@@ -206,4 +262,6 @@ def run(ctx) -> None:
     tag_tables(ctx)
     manifest_tables(ctx)
     key_types(ctx)
+    listing_keys(ctx)
+    io_caches(ctx)
     pickling(ctx)
